@@ -205,11 +205,58 @@ type srvModel struct {
 	Devices    map[uint32]glow.EquipmentAuthorization
 	Bans       map[uint32]bool
 	Offset     uint32
-	Slots      map[uint32]map[uint32]*mSlot   // id -> absolute timeslot -> slot
-	Impact     map[uint32]map[uint32]float64  // id -> absolute timeslot -> rate
+	Slots      map[uint32]map[uint32]*mSlot  // id -> absolute timeslot -> slot
+	Impact     map[uint32]map[uint32]float64 // id -> absolute timeslot -> rate
 	Archive    []mArchivedWeek
 	ReportLog  int // number of reports persisted
 	AuthLog    int // number of authorizations persisted
+	Servers    []server.AuthorizedServer
+	Migrations map[glow.PublicKey]server.EquipmentMigration
+}
+
+// serverAuth applies a server authorization post (C17): entries appear only
+// with a valid GCA signature, change only to banned, never back.
+func (m *srvModel) serverAuth(as server.AuthorizedServer) bool {
+	if !m.Registered || !glow.Verify(m.GCA, refServerSigningBytes(as), as.GCAAuthorization) {
+		return false
+	}
+	for i := range m.Servers {
+		if m.Servers[i].PublicKey == as.PublicKey {
+			if !m.Servers[i].Banned && as.Banned {
+				m.Servers[i] = as
+			}
+			return true
+		}
+	}
+	m.Servers = append(m.Servers, as)
+	return true
+}
+
+// migrate applies a migration order: outer signature by the registered GCA,
+// every new server signed by the new GCA.
+func (m *srvModel) migrate(em server.EquipmentMigration) bool {
+	if !m.Registered || !glow.Verify(m.GCA, refMigrationSigningBytes(em), em.Signature) {
+		return false
+	}
+	for _, s := range em.NewServers {
+		if !glow.Verify(em.NewGCA, refServerSigningBytes(s), s.GCAAuthorization) {
+			return false
+		}
+	}
+	if m.Migrations == nil {
+		m.Migrations = map[glow.PublicKey]server.EquipmentMigration{}
+	}
+	m.Migrations[em.Equipment] = em
+	return true
+}
+
+// restartVolatile drops what the code documents as not yet persisted.
+func (m *srvModel) restartVolatile() {
+	m.Servers = nil
+	m.Migrations = nil
+	// Live-window impact rates are re-fetched from WattTime at start-up in
+	// production and are not persisted; C04 does not list them.
+	m.Impact = map[uint32]map[uint32]float64{}
 }
 
 type mArchivedWeek struct {
